@@ -102,7 +102,7 @@ void run(Ctx &ctx, const std::string &w) {
         // observers change no state: report and carry on with the script
         auto soft = [&](const std::string &key, const std::string &detail) { ctx.violation(key, where() + detail); };
         auto expectEq = [&](const char *what, uint64_t got, uint64_t exp) { if (got != exp) fail(c + ":" + what, std::string(what) + " returned " + num(got) + ", std::string model gives " + num(exp)); };
-        if (step < 2) feat += c;
+        if (step < 1) feat += c;
         ++used[c];
         const int i = idx(o.a[0]);
         bool expectThrow = false, threw = false;
